@@ -422,7 +422,7 @@ func buildDriver(pkg *types.Package, file *ast.File, info *types.Info, src strin
 	out.WriteString("type rtErr interface{ RuntimeError() }\n\n")
 	out.WriteString("const hexd = \"0123456789abcdef\"\n\nfunc prhex(s string) {\n\tfor i := 0; i < len(s); i++ {\n\t\tprint(string(hexd[s[i]>>4]), string(hexd[s[i]&15]))\n\t}\n}\n\n")
 	anyT := types.NewInterfaceType(nil, nil)
-	fmt.Fprintf(&out, "func prPanic(r any) {\n\tif _, ok := r.(rtErr); ok {\n\t\tprint(\"P rt\\n\")\n\t\treturn\n\t}\n\tprint(\"P v\")\n\t%s(r, %d)\n\tprint(\"\\n\")\n}\n\n", d.printer(anyT), obsDepth)
+	fmt.Fprintf(&out, "func prPanic(r any) {\n\tif e, ok := r.(rtErr); ok {\n\t\tprint(\"# \", e.(error).Error(), \"\\n\")\n\t\tprint(\"P rt\\n\")\n\t\treturn\n\t}\n\tprint(\"P v\")\n\t%s(r, %d)\n\tprint(\"\\n\")\n}\n\n", d.printer(anyT), obsDepth)
 	fmt.Fprintf(&out, "func emit(k int, v int) {\n\tprint(\"E 0\")\n\t%s(k, 2)\n\t%s(v, 2)\n\tprint(\"\\n\")\n}\n\n", d.printer(types.Typ[types.Int]), d.printer(types.Typ[types.Int]))
 	fmt.Fprintf(&out, "func emits(k int, s string) {\n\tprint(\"E 1\")\n\t%s(k, 2)\n\t%s(s, 2)\n\tprint(\"\\n\")\n}\n\n", d.printer(types.Typ[types.Int]), d.printer(types.Typ[types.String]))
 	fmt.Fprintf(&out, "func emitb(k int, b bool) {\n\tprint(\"E 2\")\n\t%s(k, 2)\n\t%s(b, 2)\n\tprint(\"\\n\")\n}\n\n", d.printer(types.Typ[types.Int]), d.printer(types.Typ[types.Bool]))
@@ -560,6 +560,8 @@ func parseOutput(out string, cases []Case, tb *Tables) error {
 		f := strings.Fields(line)
 		p := &obsParser{toks: f[1:], tb: tb}
 		switch f[0] {
+		case "#":
+			continue
 		case "C":
 			cur, _ = strconv.Atoi(f[1])
 			if cur < 0 || cur >= len(cases) {
